@@ -1061,6 +1061,7 @@ func (c *Conn) readTopicMetadatav1(brokers map[int32]Broker, topicMetadata []top
 				Isr:             makeBrokers(brokers, p.Isr...),
 				ID:              int(p.PartitionID),
 				OfflineReplicas: []Broker{},
+				Error:           makeError(p.PartitionErrorCode, ""),
 			})
 		}
 	}
@@ -1083,6 +1084,7 @@ func (c *Conn) readTopicMetadatav6(brokers map[int32]Broker, topicMetadata []top
 				Isr:             makeBrokers(brokers, p.Isr...),
 				ID:              int(p.PartitionID),
 				OfflineReplicas: makeBrokers(brokers, p.OfflineReplicas...),
+				Error:           makeError(p.PartitionErrorCode, ""),
 			})
 		}
 	}
